@@ -18,8 +18,16 @@ CHECKS = {
    ref="6/C02"),
  "C06": dict(
    text="Incremental-size half of the property: after every step of the C01/C02 step harnesses and every operation of the C10 nested histories (element sizes symbolic, so every size mix), each slab's cached size equals the size recomputed from scratch (prefix by kind root/non-root/inlined + element sizes + digests), at every nesting level, including the prefix swaps on root split / promotion and inline<->standalone transitions; the recomputation is the repository's verifier executed symbolically, every 'size is wrong' branch must be infeasible.",
-   note="Bounds as C01, C02, C10. Outside for now: the byte-level half (bytes emitted by the real encoders equal the reported size) needs the CBOR stream model and is not yet covered; compact-map hoisting.",
+   note="Bounds as C01, C02, C10, C12 group step (incl. last-level collision lists). Byte-level half: the C07 byte harnesses run the real encoders over the REAL fxamacker/cbor stream encoder (its SSA is executed, no CBOR model) and assert encoded length minus extra-data sections == reported size (+16 for an omitted sibling link) and decoded size == in-memory size, for arrays/maps of up to 2 (quick) / 3 (thorough) elements whose CBOR widths are chosen by symbolic values, with wrapped values, large-value references, inlined arrays, inline and external collision groups. Outside: compact-map hoisting (only 'bytes <= size' would apply), larger slabs.",
    ref="6/C06"),
+ "C07": dict(
+   text="The real slab encoders and decoders executed over the REAL CBOR library (fxamacker/cbor's stream encoder/decoder SSA is interpreted symbolically; no model): for arrays and maps built through the public API whose element values are symbolic (so every CBOR head width 1/2/3/5/9 is chosen by the solver), with wrapped values, large values stored as references, keys too large to inline, inlined child arrays (nested), inline and external collision groups and multi-slab trees: encode -> decode -> encode is byte-identical, the decoded slab is field-equal (header incl. size/count, next, inlined status, extra data, elements), and the raw-byte flags (root / has-pointers / size-limit) are truthful for every slab in storage. Index slabs additionally: EVERY byte string of up to 40 (quick) / 66 (thorough) bytes with an index-slab head that decodes re-encodes to itself (fully symbolic buffer, bit-vector rendering).",
+   note="Bounds: T=256; up to 2/3 top-level elements, nesting depth 1/2, 2/3 map keys over 2 or 4 digest levels. The repository's own VerifyArraySerialization/VerifyMapSerialization are part of the oracle (executed symbolically) next to harness assertions for flags. Outside: compact (same-typed composite) inlined maps, inlined maps as array elements, version-0 data slabs.",
+   ref="6/C07"),
+ "C08": dict(
+   text="(1) Reload relation on every field operations read: the decoded slab of every C07 scenario is field-equal to the in-memory one (cached sizes at every nesting level, counts, first keys, next, inlined status). (2) Differential run with the real codec over two ledgers: the same build + operation (append / set / remove / mutate nested child, values symbolic) executed warm and under a symbolic schedule of {commit; commit+drop cache; commit+reopen from ledger}: same counts, both valid, and byte-identical final registers.",
+   note="Bounds: arrays of 1..2 scalars (+ optional inlined child, + optional 4 large elements to span several slabs); one canonical goroutine schedule for the commits (interleavings are C16's subject). Outside: maps in the differential run, longer schedules (the reduction 'overlay + dirty marks + reload equality' is C15/C03/C07).",
+   ref="6/C08"),
  "C09": dict(
    text="After every step of the C01/C02 step harnesses and every history of the C10 harness (with returned storables disposed of), the set of slabs in storage equals the set reachable from the root: counted by an independent walk over index-slab children, slab references (incl. wrapped), inlined containers and large-value slabs; a dangling reference fails the walk.",
    note="Bounds: as C01, C02, C10. Outside: external collision groups and bulk pop of multi-slab containers (being added).",
@@ -68,6 +76,10 @@ CHECKS = {
    text="Array Get/Set/Remove with ANY index >= count and Insert with any index > count (64-bit symbolic), range iterators with any out-of-range or inverted bounds, map Get/Remove of an absent key with arbitrary digests (below all, between, equal to an existing digest), insert at collision limit 0, and reopening an undefined identifier: each returns the specific error type under the documented category (UserError for caller mistakes, FatalError for limit/internal), issues no Store/Remove on the storage, and leaves every slab header and the content unchanged (VerifyArray/VerifyMap + model). A failure injected into the comparator, the hash-input provider or the storage read during a lookup is reported as ExternalError.",
    note="Bounds: shapes as C01/C02 (T=256). 'Pending write set unchanged' is observed as 'no Store/Remove call reached the storage' on a logging wrapper around BasicSlabStorage.",
    ref="6/C18"),
+ "C19": dict(
+   text="(a) Fully symbolic buffers of every length 0..40 (quick) / 0..66 (thorough): the three raw header queries, NewSlabIDFromRawBytes and DecodeSlab for index-slab heads (array and map, version 0 and 1) never panic, loop or allocate more than the input length (engine-enforced allocation bound at every make), and decoded slabs' ByteSize/ChildStorables are panic-free. (b) Valid registers of every CBOR-bearing slab kind (array root/non-root data slabs with scalars, wrapped values, references, inlined child; index slabs; map data slabs with inline group, external collision slab, inlined child map; storable slab) under EVERY single-byte substitution (symbolic value, every position) and every truncation, decoded by the real decoders over the real CBOR library: no panic, bounded allocation. (c) The inlined array / compact-map decoders with symbolic semantic fields (any extra-data index, any recorded count, any element count, any extra-data list) over well-formed CBOR produced by the real encoder.",
+   note="Bounds as stated; panics found by the engine are replayed natively through the real DecodeSlab. Outside: multi-byte edits of CBOR-bearing registers other than the structured fields of (c), version-0 data slabs, the caller's StorableDecoder (a harness double).",
+   ref="6/C19"),
  "C20": dict(
    text="CheckStorageHealth on every valid forest of slab doubles within the bound (accepted, true root set returned, wrong expected root count rejected) and on every single corruption of the four kinds the property names (deleted referenced slab, extra unreferenced slab, slab referenced from two places, cross-owner reference), each applied at every position: rejected.",
    note="Bounds: 3 (quick) / 5 (thorough) slabs, every parent assignment, one reference optionally nested in a non-reference wrapper, expected root count symbolic in -1..n+1. Outside: larger graphs; cyclic graphs (not produced by valid histories or the named corruptions; the engine observed that CheckStorageHealth does not terminate on some cycles, recorded in DESIGN.md as an observation outside C20).",
